@@ -255,7 +255,20 @@ def r5_ws_oversize_arm(ctx):
             R.check(cont, "C07.R5", "background_task:continues", "after the rejection the receive loop continues", "after the rejection the connection loop cannot receive again", where(s))
 
 
-RULES = [r1_ws_frame_limit, r2_http_limit, r3_plumbing, r4_limit_before_read, r5_ws_oversize_arm]
+
+def r6_size_gates(ctx):
+    """wherever the request limit is compared with a size, equality is on the admit side"""
+    from .common import limit_gates
+    limit_gates(ctx, "C07.R6", WANT, (SERVER, "jsonrpsee_core"), 1, "request size")
+
+
+def rcfg_config_verbatim(ctx):
+    """the configured `max_request_body_size` reaches the ServerConfig unchanged (setter stores its argument, build()/Clone copy it)"""
+    from .common import config_field_integrity
+    config_field_integrity(ctx, "C07.CFG", "max_request_body_size")
+
+
+RULES = [r1_ws_frame_limit, r2_http_limit, r3_plumbing, r4_limit_before_read, r5_ws_oversize_arm, r6_size_gates, rcfg_config_verbatim]
 
 LEVEL_TEXT = (
     "Structural necessary conditions decided exactly from the type-checked program: which configuration field every "
